@@ -282,7 +282,7 @@ def check_case(case, ctx):
                 got = data[..., out["fields"].index(name)]
                 exp = new_by_box[key][..., j]
                 if rec["kind"] in ("user", "callable"):
-                    ok = refread.same_bits(got, exp)
+                    ok = refread.same_values(got, exp)      # bit-exact; the payload of a computed NaN is not asserted
                 else:
                     m = valid_by_box[key]
                     scale = float(np.max(np.abs(exp[m]))) if m.any() else 0.0
